@@ -84,6 +84,9 @@ func runC13(p *core.Prog, r *core.Report) {
 	c13R4(p, r)
 	c13R5(p, r)
 	c13R6(p, r)
+	// the result is pushed by digest when no tag is given: in a layout that push must not replace the
+	// untagged entries of other images, or the source is swept by the next collection (shared with C06.R9)
+	c06R9(p, r, "C13.R7")
 }
 
 func c13R1(p *core.Prog, r *core.Report) {
